@@ -32,6 +32,9 @@ FIXED = [
  ("C12", "bd3d6fb", "mode_weight='unbiased_inverse_covariance' accepted by the option class but without a branch in _set_weights_by_mode: the mode silently configured nothing (found by the theorem about the generated mode table)"),
  ("C04", "b9e6103", "MProcess.calc_proj_eq_constraint (object level) applied its correction twice to an ndarray occurring twice in hss (copy.deepcopy keeps the aliasing): hss = [E, E, 0] gave first-row sum 1/3"),
  ("C04", "c6154d5", "Gate.calc_proj_ineq_constraint (object level) did not pass eps_truncate_imaginary_part to to_hs_from_choi_with_sparsity: a Gate built with eps 1e-8 still raised at parameter scale 1e3"),
+ ("C06", "d64a062", "compose_qoperations built M.G, G.M and M.M with the default eps_zero: for an MProcess with eps_zero=1e-4 and an outcome of probability 1e-6, (M.G).rho kept the outcome while M.(G.rho) truncated it (found by peer review of the C06 theorems: the associativity theorem only held for the default threshold)"),
+ ("C20", "df6ca25", "a schedule given as a generator / dict / set with well-formed items escaped Experiment validation as raw TypeError / KeyError instead of the schedule-order error (found by peer review of the C20 theorems)"),
+ ("C14", "007afc6", "_random_number_to_data fell through to the last index: p=[0.1]*10+[0.0], u=nextafter(1,0) returned outcome 10 of probability 0 (found by peer review: exact-rational model vs float running sum)"),
 ]
 findings = []
 for f in sorted(glob.glob(os.path.join(HERE, "known_findings.d", "*.json"))):
